@@ -1,3 +1,4 @@
+import Grexv.Lemmas.TrieCarried
 import Grexv.Props.C13
 import Grexv.Lemmas.RepExpand
 import Grexv.Lemmas.Pipeline
@@ -160,6 +161,57 @@ theorem repetitions_language_is_trie_language (cfg : Config) (hp : RepPrint cfg)
       (Spec.fullMatch cfg.ci P s = true ↔ ∃ ls, st.trie.LangFrom st.trie.init ls ∧ SpellsA cfg.ci ls s) :=
   rep_exact_trie cfg hp env ws st h hseg
     (fun w hw => by have := hlen w hw; rwa [clusterOfPieces_eq, List.length_map] at this) hne s hs hsne
+
+/-- **every accepting path of the `-r` trie carries a converted test case** (all inputs, any thresholds): the trie is a tree, every final
+state is the end of the path of an inserted cluster, and a state of a tree has one access path — so a label sequence of the trie's
+language is, label by label, the characters of a converted test case with a range of counts containing its count.  Whatever `-r`
+accepts beyond the test cases comes from *ranges* `{m,n}`, `m < n`, on labels, and from nothing else. -/
+theorem accepting_paths_carry_test_cases (cls : List Cluster) (hcls : ∀ cl ∈ cls, ∀ g ∈ cl, g.min = g.max) (w : Word)
+    (h : (Dfa.trie cls).LangFrom (Dfa.trie cls).init w) : ∃ cl ∈ cls, Dfa.CarriesL w cl :=
+  Dfa.trie_lang_carried cls hcls w h
+
+/-- **C05, where it holds, all inputs** (`-r` with positive thresholds, every subset of the class options, with or without `-i`, capturing
+groups and `-e`, plain printing with an anchor in place; stored test cases of at most 1000 graphemes, one of them non-empty): **if no
+edge of the trie of the `-r` build carries a range of counts** — the widening merge of `find_next_state` never fired — the build with `-r`
+and the build without it return texts the model of `Regex::new` accepts, and the two compiled patterns match exactly the same non-empty
+strings of scalar values in full.  Known finding D2 is the complement: `["a","aab"]` has the label `a{1,2}`. -/
+theorem repetitions_keep_language_without_ranges (cfg : Config) (hp : RepPrint (withRep cfg true)) (env : Env) (ws : List Str)
+    (stR st0 : Stages) (hR : regExpFrom (withRep cfg true) env ws = .ok stR) (h0 : regExpFrom (withRep cfg false) env ws = .ok st0)
+    (hseg : ∀ w ∈ storedCases cfg env ws, Grexv.SegOK env w)
+    (hlen : ∀ w ∈ storedCases cfg env ws, (clusterOfPieces (env.segOf w)).length ≤ 1000)
+    (hne : ∃ t ∈ storedCases cfg env ws, t ≠ [])
+    (hnr : ∀ e ∈ stR.trie.edges, e.label.min = e.label.max)
+    (s : Str) (hs : ∀ c ∈ s, Scalar c) (hsne : s ≠ []) :
+    ∃ PR P0, Spec.parse (fmtRegExp (withRep cfg true) stR.finalAst) = some (⟨cfg.ci, false⟩, PR) ∧
+      Spec.parse (fmtRegExp (withRep cfg false) st0.finalAst) = some (⟨cfg.ci, false⟩, P0) ∧
+      Spec.fullMatch cfg.ci PR s = Spec.fullMatch cfg.ci P0 s :=
+  rep_same_language_no_range cfg hp env ws stR st0 hR h0 hseg
+    (fun w hw => by have := hlen w hw; rwa [clusterOfPieces_eq, List.length_map] at this) hne hnr s hs hsne
+
+/-- **C05, the bound on what `-r` adds** (same settings): every non-empty string the `-r` pattern matches in full has the shape of a stored
+test case — it is spelled by labels that carry the test case's converted cluster: the same units in the same order, each repeated a
+number of times taken from a range that contains the test case's own count -/
+theorem repetitions_accept_only_test_case_shapes (cfg : Config) (hp : RepPrint cfg) (env : Env) (ws : List Str) (st : Stages)
+    (h : regExpFrom cfg env ws = .ok st) (hseg : ∀ w ∈ storedCases cfg env ws, Grexv.SegOK env w)
+    (hlen : ∀ w ∈ storedCases cfg env ws, (clusterOfPieces (env.segOf w)).length ≤ 1000) (hne : ∃ t ∈ storedCases cfg env ws, t ≠ [])
+    (s : Str) (hs : ∀ c ∈ s, Scalar c) (hsne : s ≠ []) :
+    ∃ P, Spec.parse (fmtRegExp cfg st.finalAst) = some (⟨cfg.ci, false⟩, P) ∧
+      (Spec.fullMatch cfg.ci P s = true →
+        ∃ t ∈ storedCases cfg env ws, ∃ ls : Word,
+          Dfa.CarriesL ls (convertRepetitions cfg ((subPieces (env.segOf t)).map (fun p => Grapheme.ofStr (p.flatMap (convChar cfg))))) ∧
+          SpellsA cfg.ci ls s) :=
+  rep_accepts_shape cfg hp env ws st h hseg
+    (fun w hw => by have := hlen w hw; rwa [clusterOfPieces_eq, List.length_map] at this) hne s hs hsne
+
+/-- the hypothesis is satisfiable and not always true: `["aaa","b"]` builds a trie without a range label, `["a","aab"]` one with `a{1,2}` -/
+example :
+    let env : Env := { lowerOf := id, segOf := fun w => w.map fun c => [c] }
+    (match regExpFrom { rep := true } env [strOf "aaa", strOf "b"] with
+      | .ok st => some (st.trie.edges.all fun e => e.label.min == e.label.max)
+      | .error _ => none) = some true ∧
+    (match regExpFrom { rep := true } env [strOf "a", strOf "aab"] with
+      | .ok st => some (st.trie.edges.all fun e => e.label.min == e.label.max)
+      | .error _ => none) = some false := by decide +kernel
 
 /-- read literally: case-sensitive and with no backslash in a label, a label `{m,n}` contributes its characters `k` times -/
 theorem spells_literally (ls : Word) (s : Str) (h : ∀ l ∈ ls, ∀ x ∈ l.chars, 92 ∉ x) : SpellsA false ls s ↔ Dfa.Spells ls s :=
